@@ -77,7 +77,9 @@ def c20(req, out):
             # one process, several solvers on the same box with different densities (history)
             for m in req.get("ms", [10, 4, 12, 2, 7, 11]):
                 p = RecProblem(N, lo, up, kind=0)
-                s = Solver(p, SolverParameters(r=2.5, eps=0.01, itersLimit=40, evolventDensity=m))
+                # every documented parameter is exercised: every other run is given a start point (inside the box, off the grid)
+                sp = Point(np.array([lo[j] + 0.3137 * (up[j] - lo[j]) for j in range(N)], dtype=np.double), []) if m % 2 == 0 else []
+                s = Solver(p, SolverParameters(r=2.5, eps=0.01, itersLimit=40, evolventDensity=m, startPoint=sp))
                 quiet(s.DoGlobalIteration, 25)
                 n += 1
                 bad = [y for (y, v) in p.log if not on_grid(y, lo, up, m)]
